@@ -3,7 +3,8 @@
 proof      coq/Props/C12.v over Model/BBox.v (exact rationals)
 tie        tools/gen_bbox.py (anchors of BBox / calculate_bounding_boxes / Path::new / image / abs_transform
            threading -> Gen/BBoxTables.v, lock lemma) + the `bbox` correspondence
-K bbox     every group of every dumped tree: boxes recomputed from the children by the Coq model and compared inside
+K bbox     every group of every dumped tree AND of every clip-path / mask / pattern / feImage sub-tree at every nesting depth
+           (groups_of_ex; roots against the identity: C12_forest_product_is_local): boxes recomputed from the children by the Coq model and compared inside
            Coq (tolerance 1e-4 relative: f32 rounding of transformed boxes; untransformed unions are exact), and
            abs_transform == parent abs * transform for every group / == parent abs for every leaf
 S e2e-C12  node-paint: every (sampled) node painted alone, placed by the product of its ancestors' transforms; the
@@ -63,17 +64,106 @@ def node_numbers_ok(n):
     return all(finite(n[k]) for k in keys)
 
 
-def groups_of(tree):
-    """-> list of (path, group node, parent abs or None)"""
+def subroots_of(n):
+    """-> [(label, root group, Arc identity)]: the roots of the sub-trees hanging off node n: ClipPath::root (and the clip path's own
+    clip-path chain), Mask::root (and the mask's own mask chain), Pattern::root of fill / stroke paints, feImage roots."""
     out = []
+    if n['t'] == 'g':
+        c, k = n.get('clip'), 0
+        while c and k < 8:
+            out.append(('clip%d' % k, c['root'], c.get('ptr')))
+            c, k = c.get('clip'), k + 1
+        m, k = n.get('mask'), 0
+        while m and k < 8:
+            out.append(('mask%d' % k, m['root'], m.get('ptr')))
+            m, k = m.get('mask'), k + 1
+        for i, f in enumerate(n.get('filters') or []):
+            for j, pr in enumerate(f.get('primitives') or []):
+                kd = pr.get('kind') or {}
+                if kd.get('k') == 'Image' and isinstance(kd.get('root'), dict):
+                    out.append(('feimage%d.%d' % (i, j), kd['root'], None))
+    elif n['t'] == 'path':
+        for key in ('fill', 'stroke'):
+            pt = (n.get(key) or {}).get('paint') or {}
+            if pt.get('k') == 'pattern' and isinstance((pt.get('def') or {}).get('root'), dict):
+                out.append((key + '-pattern', pt['def']['root'], pt['def'].get('ptr')))
+    return out
 
-    def rec(g, pabs, path):
-        out.append((path, g, pabs))
+
+def ts_near(a, b, tol=1e-4):
+    try:
+        return all(abs(x - y) <= tol * max(1, abs(x), abs(y)) for x, y in zip(a, b))
+    except TypeError:
+        return False
+
+
+ID6 = [1, 0, 0, 1, 0, 0]
+
+
+def groups_of_ex(tree, subtrees=True):
+    """-> list of (path, group node, parent abs or None, info).  With `subtrees` also every group of every clip-path / mask /
+    pattern / feImage sub-tree, at every nesting depth (a sub-tree root is a Group::empty(): its parent abs is the identity);
+    their paths carry a `#label` component.  info['stale'] (pattern sub-trees only, below a group P that is the only child
+    of the root and has transform == abs_transform != identity, i.e. the wrapper of push_pattern_transform): the product of
+    the transforms from below P down to this group - what abs_transform is when P's transform was not propagated."""
+    out = []
+    seen = set()
+
+    def rec(g, pabs, path, label, stale_parent):
+        stale = None
+        if stale_parent is not None:
+            stale = list(mul6(stale_parent, g['ts'])) if finite(g['ts']) else None
+        elif (label or '').endswith('-pattern') and path.endswith('#%s/0' % label) and finite(g['ts']) and finite(g['abs_ts']) \
+                and ts_near(g['ts'], g['abs_ts']) and not ts_near(g['ts'], ID6):
+            stale = ID6       # g is P
+        out.append((path, g, pabs, dict(sub=label, stale=stale)))
+        if subtrees:
+            for lab, r, ptr in subroots_of(g):
+                sub(r, "%s#%s" % (path, lab), ptr, lab)
         for i, c in enumerate(g['children']):
             if c['t'] == 'g':
-                rec(c, g['abs_ts'], "%s/%d" % (path, i))
-    rec(tree['root'], None, '')
+                rec(c, g['abs_ts'], "%s/%d" % (path, i), label, stale)
+            elif subtrees:
+                for lab, r, ptr in subroots_of(c):
+                    sub(r, "%s/%d#%s" % (path, i, lab), ptr, lab)
+
+    def sub(r, path, ptr, lab):
+        # shared definitions (Arc) are dumped at every use: walk each once per tree
+        if path.count('#') > 6 or (ptr is not None and ptr in seen):
+            return
+        if ptr is not None:
+            seen.add(ptr)
+        rec(r, None, path, lab, None)
+    rec(tree['root'], None, '', None, None)
     return out
+
+
+def groups_of(tree, subtrees=True):
+    return [(p, g, pabs) for p, g, pabs, _ in groups_of_ex(tree, subtrees)]
+
+
+DUMMY_BOXES = dict(bbox=[0, 0, 0, 0], abs_bbox=[0, 0, 0, 0], sbbox=[0, 0, 0, 0], abs_sbbox=[0, 0, 0, 0], lbbox=[0, 0, 1, 1], abs_lbbox=[0, 0, 1, 1])
+
+
+def synth_clip_root_class(path, g, info):
+    """KNOWN class synth_clip_root_boxes: the group is the root of a clip path (path ends in `#clipN`) that usvg synthesised for
+    a viewport (marker.rs, use_node.rs clip_element, image.rs: one rectangle made by Path::new_simple, no id, identity
+    transforms) and ALL its boxes are still the dummies of Group::empty(): calculate_bounding_boxes was never called on it."""
+    return (re.search(r"#clip\d+$", path) is not None and len(g['children']) == 1 and g['children'][0]['t'] == 'path'
+            and g['children'][0]['id'] == '' and g['id'] == '' and ts_near(g['children'][0]['abs_ts'], ID6)
+            and all(list(g[k]) == v for k, v in DUMMY_BOXES.items()))
+
+
+def pattern_pushed_class(g, info):
+    """KNOWN class pattern_pushed_transform: the group lies in a pattern sub-tree at or below the wrapper P made by
+    paint_server.rs push_pattern_transform (transform == abs_transform != identity directly below the pattern root), and its
+    abs_transform and its leaves' abs_transforms are exactly what they were before the push (product without P)."""
+    st = info.get('stale')
+    if st is None:
+        return False
+    own_ok = ts_near(g['abs_ts'], st) or (st == ID6 and ts_near(g['abs_ts'], g['ts']))
+    expect_leaf = st
+    return own_ok and all(ts_near(c['abs_ts'], expect_leaf) for c in g['children'] if c['t'] != 'g')
 
 
 def group_case(g, pabs):
@@ -240,8 +330,20 @@ def gen_docs(rng, n):
     shapes = ['<path d="M 40 40 L 120 50 L 60 130 Z"', '<path d="M 30 100 L 100 20 L 170 100"', '<rect x="40" y="50" width="90" height="60"',
               '<circle cx="100" cy="100" r="45"', '<path d="M 40 100 C 60 10 140 190 160 100"', '<line x1="30" y1="40" x2="170" y2="150"',
               '<polyline points="40 150 70 40 100 150 130 40 160 150"', '<path d="M 50 50 L 150 50 L 52 56"']
+    # transform-origin (converter.rs SvgNode::resolve_transform: translate(o) * transform * translate(-o)); it only has an
+    # effect under a transform that is not a pure translation
+    origins = ['150 150', '40 200', 'center', '50% 25%', '-30 60', 'right bottom', '0 80']
+    nontrans = [t for t in tss if t and not t.startswith('translate')]
+
+    def tattr(t, p_origin=2):
+        """-> ' transform="t" [transform-origin="o"]' (origin with probability 1/p_origin; always for p_origin == 1)"""
+        if not t:
+            return ''
+        if rng.below(p_origin) == 0:
+            return 'transform="%s" transform-origin="%s"' % (t, rng.choice(origins))
+        return 'transform="%s"' % t
     for i in range(n):
-        k = rng.below(8)
+        k = rng.below(11)
         t1 = rng.choice(tss)
         t2 = rng.choice(tss)
         sw = rng.choice([1, 3, 8, 15, 0.5])
@@ -250,7 +352,8 @@ def gen_docs(rng, n):
         sh = rng.choice(shapes)
         body = ''
         if k == 0:      # stroked shapes under nested transforms
-            body = '<g id="g1" transform="%s"><g id="g2" transform="%s">%s id="p1" %s/>%s id="p2" %s/></g></g>' % (t1, t2, sh, stroke, rng.choice(shapes), stroke)
+            body = '<g id="g1" %s><g id="g2" %s>%s id="p1" %s/>%s id="p2" %s %s/></g></g>' % (
+                tattr(t1), tattr(t2), sh, stroke, rng.choice(shapes), stroke, tattr(rng.choice(tss), 3))
         elif k == 1:    # markers
             body = ('<defs><marker id="m" markerWidth="8" markerHeight="8" refX="4" refY="4" orient="auto" markerUnits="%s">'
                     '<path d="M 0 0 L 8 4 L 0 8 Z" fill="red"/></marker></defs>'
@@ -279,11 +382,64 @@ def gen_docs(rng, n):
             href = 'data:image/svg+xml;base64,' + base64.b64encode(inner.encode()).decode()
             body = ('<g id="g1" transform="%s"><image id="i1" x="50" y="60" width="%s" height="%s" preserveAspectRatio="%s" xlink:href="%s"/></g>'
                     % (t1, rng.choice([40, 90, 20]), rng.choice([40, 30, 100]), rng.choice(['xMidYMid', 'none', 'xMinYMax slice']), href))
-        else:           # dashes, opacity groups, nested groups
-            body = ('<g id="g1" transform="%s" opacity="0.7"><g id="g2" transform="%s">%s id="p1" %s stroke-dasharray="9 4"/></g>%s id="p2" %s/></g>'
-                    % (t1, t2, sh, stroke, rng.choice(shapes), stroke))
+        elif k == 7:    # dashes, opacity groups, nested groups
+            body = ('<g id="g1" %s opacity="0.7"><g id="g2" %s>%s id="p1" %s stroke-dasharray="9 4"/></g>%s id="p2" %s/></g>'
+                    % (tattr(t1, 3), tattr(t2, 3), sh, stroke, rng.choice(shapes), stroke))
+        elif k == 8:    # transform-origin on containers (g, nested svg, filtered / clipped / isolated groups) with non-translation transforms
+            n1, n2 = rng.choice(nontrans), rng.choice(nontrans)
+            deco = rng.choice(['', 'opacity="0.6"', 'clip-path="url(#c)"', 'mask="url(#mk)"', 'filter="url(#f)"'])
+            body = ('<defs><clipPath id="c"><circle cx="100" cy="90" r="70"/></clipPath><mask id="mk"><rect x="20" y="20" width="170" height="170" fill="white"/></mask>'
+                    '<filter id="f" x="-0.2" y="-0.2" width="1.4" height="1.4"><feOffset dx="6" dy="4"/></filter></defs>'
+                    '<g id="o1" transform="%s"><g id="g1" %s %s><g id="g2" %s>%s id="p1" %s/></g>%s id="p2" fill="#30a050"/></g>'
+                    '<svg id="n1" x="20" y="30" width="120" height="100" viewBox="0 0 200 200" %s>%s id="pn" fill="#a03050"/></svg></g>'
+                    % (rng.choice(['', 'translate(20 10)', 'scale(0.8)']), tattr(n1, 1), deco, tattr(n2, 2), sh, stroke, rng.choice(shapes),
+                       tattr(rng.choice(nontrans), 1), rng.choice(shapes)))
+        elif k == 10:   # sub-trees: nested clip paths with transformed children, masks (both content units), patterns (viewBox, nested)
+            n1 = rng.choice(nontrans)
+            pcu = rng.choice(['', '', 'patternContentUnits="objectBoundingBox"'])
+            pat_child = ('<rect x="0.1" y="0.1" width="0.5" height="0.5" fill="#205080"/>' if pcu else
+                         '<g transform="%s"><rect x="2" y="2" width="9" height="9" fill="#205080"/><g %s><circle cx="12" cy="12" r="4" fill="#c03030"/></g></g>'
+                         % (rng.choice(tss), tattr(n1, 2)))
+            body = ('<defs><clipPath id="c2"><rect x="20" y="20" width="150" height="140" transform="%s"/></clipPath>'
+                    '<clipPath id="c1" clip-path="url(#c2)" %s><circle cx="100" cy="90" r="70" %s/><use xlink:href="#cr"/>'
+                    '<text x="40" y="120" font-family="Noto Sans" font-size="40" transform="%s">Clip</text></clipPath><rect id="cr" x="30" y="100" width="100" height="60"/>'
+                    '<mask id="m2"><rect x="0" y="0" width="200" height="120" fill="white"/></mask>'
+                    '<mask id="m1" mask="url(#m2)" %s><g transform="%s"><rect x="%s" fill="white"/><g %s><circle cx="%s" fill="#888"/></g></g></mask>'
+                    '<pattern id="pt" width="%s" height="%s" %s %s %s>%s</pattern></defs>'
+                    '<g id="g1" transform="%s" clip-path="url(#c1)"><g id="g2" mask="url(#m1)">%s id="p1" fill="url(#pt)" stroke="url(#pt)" stroke-width="6"/></g></g>'
+                    % (rng.choice(['', 'translate(5 5)', 'rotate(10)']), rng.choice(['', 'transform="scale(0.9)"', 'clipPathUnits="userSpaceOnUse"']),
+                       tattr(rng.choice(tss[:4]), 2), rng.choice(['', 'translate(10 0)', 'scale(0.8)']),
+                       'maskContentUnits="objectBoundingBox"' if rng.below(2) else '',
+                       rng.choice(['', 'translate(0.05 0.05)', 'scale(0.9)']), '0" y="0" width="160" height="150' if rng.below(2) else '0.1" y="0.1" width="0.8" height="0.8',
+                       tattr(rng.choice(['scale(0.5)', 'rotate(20)']), 2), '80" cy="80" r="50' if rng.below(2) else '0.5" cy="0.5" r="0.3',
+                       '0.2' if pcu else '20', '0.2' if pcu else '20', '' if pcu else 'patternUnits="userSpaceOnUse"', pcu,
+                       '' if pcu else rng.choice(['', 'viewBox="0 0 30 30"', 'patternTransform="rotate(30)"']), pat_child, t1, sh))
+        else:           # transform-origin on leaves (shapes, text, images) with non-translation transforms, under a transformed parent
+            n1 = rng.choice(nontrans)
+            leaf = rng.choice(['%s id="p1" %s %s/>' % (sh, stroke, tattr(n1, 1)),
+                               '<text id="t1" x="60" y="110" font-family="Noto Sans" font-size="24" %s>Origin</text>' % tattr(n1, 1),
+                               '<rect id="p1" x="60" y="70" width="80" height="50" fill="#4070d0" %s/>' % tattr(n1, 1)])
+            body = '<g id="g1" %s>%s<g id="g2" %s>%s id="p2" fill="#d07040"/></g></g>' % (tattr(t1, 2), leaf, tattr(rng.choice(nontrans), 1), rng.choice(shapes))
         docs.append('<svg %s width="220" height="220" viewBox="0 0 220 220">%s</svg>' % (NS, body))
     return docs
+
+
+def origin_docs():
+    """Must-pass inputs, independent of the seed: containers and leaves combining a non-translation `transform` with a non-zero
+    `transform-origin` (rotate / scale / skew / matrix x absolute, keyword and percentage origins), two levels deep, with unit
+    fills so that the painted-pixels oracle sees every node."""
+    out = []
+    combos = [('rotate(90)', '150 150'), ('scale(2)', '40 200'), ('skewX(20)', '100 160'), ('matrix(0.8 0.3 -0.4 1.1 5 -5)', 'center'),
+              ('rotate(-30) scale(1.2 0.8)', '25% 75%'), ('scale(-1 1)', 'right top')]
+    for k, (t, o) in enumerate(combos):
+        t2, o2 = combos[(k + 1) % len(combos)]
+        out.append('<svg %s width="300" height="300"><g id="outer" transform="translate(20 10)">'
+                   '<g id="cont" transform="%s" transform-origin="%s"><rect id="r1" x="120" y="100" width="60" height="30" fill="green"/>'
+                   '<g id="inner" transform="%s" transform-origin="%s"><rect id="r2" x="130" y="140" width="30" height="20" fill="blue"/></g></g>'
+                   '<rect id="leaf" x="100" y="180" width="50" height="25" fill="red" transform="%s" transform-origin="%s"/>'
+                   '<g id="og" transform-origin="%s"><circle id="c1" cx="60" cy="60" r="20" fill="orange"/></g></g></svg>'
+                   % (NS, t, o, t2, o2, t, o, o))
+    return out
 
 
 def cli_stage(ctx, rng, quick, binp, docs):
@@ -486,15 +642,20 @@ def run(ctx):
         return
 
     files = vlib.corpus_files()
-    wit = [os.path.join(vlib.VERIF, 'corpus', 'witness', f) for f in ('F21.svg', 'F14.svg', 'C12-background.svg', 'C12-stroke-skew.svg', 'C12-dash-caps.svg', 'C12-nested-svg-transform.svg', 'C12-leaf-export-crop.svg')]
+    wit = [os.path.join(vlib.VERIF, 'corpus', 'witness', f) for f in ('F21.svg', 'F14.svg', 'C12-background.svg', 'C12-stroke-skew.svg', 'C12-dash-caps.svg', 'C12-nested-svg-transform.svg', 'C12-leaf-export-crop.svg', 'C12-pattern-pushed-transform.svg')]
     wit = [w for w in wit if os.path.exists(w)]
     sample = list(files) if not quick else rng.sample(files, 500)
     must = [f for f in files if re.search(r"structure/(use|symbol|svg|image)/|painting/marker/|filters/filter/|masking/", f)]
     if quick:
         must = rng.sample(must, min(150, len(must)))
-    sample = sorted(set(sample + must)) + wit
-    gdocs = gen_docs(rng, 120 if quick else 1200)
-    docs = [('@' + f, f) for f in sample] + [(d, 'gen%d' % i) for i, d in enumerate(gdocs)]
+    # every tier, every seed: all files that exercise transform / transform-origin resolution (the abs-transform-is-product
+    # invariant depends on the attribute combination, and the corpus has a single file with transform-origin on a container)
+    always = [f for f in files if re.search(r"structure/(transform-origin|transform)/", f)]
+    sample = sorted(set(sample + must + always)) + wit
+    gdocs = gen_docs(rng, 130 if quick else 1200)
+    odocs = origin_docs()
+    docs = [('@' + f, f) for f in sample] + [(d, 'gen%d' % i) for i, d in enumerate(gdocs)] + [(d, 'origin%d' % i) for i, d in enumerate(odocs)]
+    ctx.cov['transform_origin_inputs'] = dict(corpus=len(always), generated=sum(1 for d in gdocs if 'transform-origin' in d), fixed=len(odocs))
 
     # ------------------------------------------------------------------ K bbox
     outs = ctx.rvh_batch(binp, 'dump', ["-\t" + d for d, _ in docs], per_item_timeout=40)
@@ -502,6 +663,7 @@ def run(ctx):
     meta = []
     trees = {}
     skipped_nonfinite = 0
+    sub_counts = {}
     for (d, name), o in zip(docs, outs):
         try:
             tree = json.loads(o)
@@ -512,16 +674,20 @@ def run(ctx):
                 ctx.violation("dump crashed: %s" % str(tree)[:200], dict(doc=d))
             continue
         trees[name] = tree
-        for path, g, pabs in groups_of(tree):
+        for path, g, pabs, info in groups_of_ex(tree):
             c = group_case(g, pabs)
             if c is None:
                 skipped_nonfinite += 1
                 continue
             cases.append(c)
-            meta.append((d, name, path, g))
+            meta.append((d, name, path, g, info))
+            if info['sub']:
+                kind = re.sub(r"[\d.]+$", "", info['sub'])
+                sub_counts[kind] = sub_counts.get(kind, 0) + 1
             ctx.note_case("bbox/%s%s" % (name, path), nontrivial=len(g['children']) > 0)
     ctx.cov['bbox_groups'] = len(cases)
     ctx.cov['bbox_groups_skipped_nonfinite'] = skipped_nonfinite
+    ctx.cov['bbox_subtree_groups'] = sub_counts
     model_ok = True
     prod_bad = []
     box_bad = []
@@ -547,18 +713,55 @@ def run(ctx):
     ctx.cov['bbox_box_mismatches'] = len(box_bad)
     reported = 0
     for i in prod_bad:
-        d, name, path, g = meta[i]
+        d, name, path, g, info = meta[i]
         src = source_text(d)
         rep = dict(op='bbox/abs-transform', doc=d, group_path=path, group_id=g['id'], ts=g['ts'], abs_ts=g['abs_ts'],
                    children_abs=[c['abs_ts'] for c in g['children'] if c['t'] != 'g'][:3])
         text = "abs_transform is not the product of the ancestors' transforms at group %r (%s) of %s" % (g['id'], path, name)
-        if use_transform_class(src):
+        if pattern_pushed_class(g, info):
+            ctx.known_or_violation('pattern_pushed_transform', text + " (pattern content below the push_pattern_transform wrapper)", rep)
+        elif use_transform_class(src):
             ctx.known_or_violation('use_transform_twice', text, rep)
         elif reported < 3:
             ctx.violation(text, rep)
             reported += 1
-    for i in box_bad[:3]:
-        d, name, path, g = meta[i]
+    nbox = 0
+    nrep_box = 0
+    # box mismatches at / below a push_pattern_transform wrapper: the class holds iff the reported boxes are exactly the model's
+    # recomputation under the abs_transform the group had BEFORE the push (decided inside Coq as well)
+    stale_idx = [i for i in box_bad if meta[i][4].get('stale') is not None]
+    stale_ok = set()
+    if stale_idx:
+        sc = []
+        for i in stale_idx:
+            g2 = dict(meta[i][3])
+            g2['abs_ts'] = meta[i][4]['stale']
+            sc.append(group_case(g2, None))
+        rc, out = ctx.coq_eval('k_bbox_stale', coq_body(sc), IMPORTS, timeout=600)
+        lists = parse_two_lists(out) if rc == 0 else None
+        if lists is not None:
+            stale_ok = set(stale_idx[j] for j in range(len(stale_idx)) if j not in lists[1])
+    npat = 0
+    for i in box_bad:
+        d, name, path, g, info = meta[i]
+        if i in stale_ok:
+            if npat == 0:
+                ctx.known_or_violation('pattern_pushed_transform', "bbox: the absolute boxes of group %s of %s (at / below the push_pattern_transform wrapper) are "
+                                       "those of the abs_transform before the push" % (path, name),
+                                       dict(op='bbox/boxes', doc=d, group_path=path, abs_ts=g['abs_ts'], abs_ts_before_push=info['stale'],
+                                            reported={k: g[k] for k in DUMMY_BOXES}))
+            npat += 1
+            continue
+        if synth_clip_root_class(path, g, info):
+            if nbox == 0:
+                ctx.known_or_violation('synth_clip_root_boxes', "bbox: the root of the synthesised viewport clip path %s of %s still has the dummy boxes "
+                                       "of Group::empty() (child rectangle %s)" % (path, name, g['children'][0]['bbox']),
+                                       dict(op='bbox/boxes', doc=d, group_path=path, reported={k: g[k] for k in DUMMY_BOXES}))
+            nbox += 1
+            continue
+        nrep_box += 1
+        if nrep_box > 3:
+            continue
         ctx.violation("bbox: boxes of group %r (%s) of %s differ from the model's recomputation from its children" % (g['id'], path, name),
                       dict(op='bbox/boxes', doc=d, group_path=path, reported={k: g[k] for k in ('bbox', 'abs_bbox', 'sbbox', 'abs_sbbox', 'lbbox', 'abs_lbbox')},
                            abs_ts=g['abs_ts'], children=[{k: c.get(k) for k in ('t', 'ts', 'bbox', 'abs_bbox', 'sbbox', 'abs_sbbox', 'lbbox')} for c in g['children']][:6],
@@ -574,11 +777,10 @@ def run(ctx):
         if n['t'] == 'path':
             segs = n.get('segs', [])
             if segs and all(sg[0] in 'MLZ' for sg in segs) and node_numbers_ok(n):
-                # trailing / repeated MoveTo points do not take part in tiny-skia's tight bounds
-                pts = []
-                for k, sg in enumerate(segs):
-                    if sg[0] == 'L' or (sg[0] == 'M' and k + 1 < len(segs) and segs[k + 1][0] == 'L'):
-                        pts.append((sg[1], sg[2]))
+                # tiny-skia's compute_tight_bounds takes every MoveTo and LineTo point, a stray trailing MoveTo included
+                # (shapes/path/M-L-M.svg, M-L-M-Z.svg: the box reaches the unpainted point 180,30; measured on the whole corpus:
+                # 3598 polygonal paths, 0 disagreements with this rule, 2 with "MoveTo only when a LineTo follows")
+                pts = [(sg[1], sg[2]) for sg in segs if sg[0] in 'ML']
                 if len(pts) >= 2:
                     pcases.append("(%s, [%s], %s, %s)" % (cts(n['abs_ts']), '; '.join("(%s, %s)" % (qstr(x), qstr(y)) for x, y in pts),
                                                          cbox(n['bbox']), cbox(n['abs_bbox'])))
@@ -663,7 +865,8 @@ def run(ctx):
     if not proof_ok and not ctx.violations:
         ctx.violation("C12 proof obligations no longer check: %s %s" % (res['failed'] + res['audit'], [x['name'] + ': ' + str(x['err']) for x in broken]),
                       dict(failed_files=res['failed'], audit=res['audit'], broken_ties=broken, log_tail=res['log'][-3000:]), found_input=False)
-    ctx.cov['rule'] = ("bbox: every group of every tree of the corpus sample (quick: ~600 files incl. use/symbol/svg/image/marker/filter/masking; thorough: all) "
+    ctx.cov['rule'] = ("bbox: every group (main tree and clip-path / mask / pattern / feImage sub-trees) of every tree of the corpus sample; all "
+                       "structure/transform(-origin) files and 6 fixed transform-origin documents in every run; every group of every tree of the corpus sample (quick: ~600 files incl. use/symbol/svg/image/marker/filter/masking; thorough: all) "
                        "and of generated documents (strokes with every cap/join/miter under translate/scale/rotate/skew/mirror, markers, use/symbol/nested svg, "
                        "filter regions larger and smaller than the content, clip paths, masks, text, images); node-paint: up to 12 (thorough: 400) nodes per "
                        "document.  Non-trivial: the group has children / the node paints at least one pixel.")
